@@ -89,6 +89,21 @@ def run(R):
     R.need(len(kv) == 1, "idiom: DeduplicateDecorator.asynq does not compute one key from (args, kwargs)")
     key = kv[0][0].id
     R.ok("C12.KEY", site, "asynq() builds its key with self.cache_key(args, kwargs)")
+    # every call outside asyncio mode is keyed: no way round the table (a call made by plain synchronous code creates a task that
+    # later calls - made while it is still in flight - must find)
+    knodes = [n for n in cfg.nodes if n.kind == "stmt" and n.ast is kv[0][1]]
+
+    def not_asyncio(e):
+        nd = cfg.nodes[e.src]
+        if nd.kind != "test":
+            return True
+        k_, s_, pos_ = q.atom_test(nd.ast)
+        return not (k_ == "call" and s_ == "is_asyncio_mode" and e.label == ("T" if pos_ else "F"))
+    pk = cfg.find_path([cfg.entry], [cfg.exit], N, cut_nodes=knodes, keep_edge=not_asyncio)
+    R.check(pk is None, "C12.KEY", asy.qualname + ":always-keyed", site,
+            "outside asyncio mode every call computes its key (and so goes through the table of tasks in flight)",
+            "asynq() can return without computing the key: such a call (e.g. one made while no task is active) gets a task of its own and registers "
+            "nothing - same-key calls made while it is in flight run the body again and see different values", cfg.fmt_path(pk) if pk else None)
     stores = [n for n in cfg.nodes if n.kind == "stmt" and isinstance(n.ast, ast.Assign) and isinstance(n.ast.targets[0], ast.Subscript)
               and q.src(n.ast.targets[0].value) == "self.tasks"]
     R.need(stores, "idiom: asynq() never stores into self.tasks")
